@@ -107,6 +107,13 @@ def check(run):
     run.check(ok, 'R4', 'run-loop-condition', 'sim::simulation::run', rn.loc(), 'run() loop condition is not (work was executed && !m_stopped): %s' % conds,
               'run() continues exactly while the last round executed something and the stop flag is clear')
 
+    run.clause('quiescence: every timer taken off the queue counts as progress of the round (the loop condition variable is incremented by a constant after each dequeue), so run() cannot return while later timers are still queued')
+    progress_rule(run, rn, outer)
+
+    run.clause('posted work runs FIFO at the time it was posted: timer completions are handed to post(), never dispatched or invoked inline (shared with C03)')
+    import p03 as _p03
+    _p03.fire_posts_rule(run)
+
     run.clause('the front of the timer queue is the earliest expiry: sorted insert, and the sort key is never written while the timer is queued (shared with C03)')
     import p03
     p03.sortedness_rules(run)
@@ -139,6 +146,68 @@ def check(run):
     other = [a for a in q.field_accesses(f) if a.is_write and a.field != 'sim::simulation::m_stopped']
     run.check(not other and not list(f.calls()), 'R2', 'restart-effect', 'sim::simulation::restart', f.loc(),
               'restart() does more than clear the stop flag: %s' % ([a.field for a in other] + [q.callee_name(c) for c in f.calls()]), 'restart only clears the flag (no event or clock state touched)')
+
+
+def _const_increments(fn):
+    """[(site, did)] increments of a local by a positive constant: ++x, x++, x += <k>"""
+    out = []
+    for n in fn.all_nodes():
+        tgt = None
+        if n['k'] == 'un' and n['op'] in ('++', 'pre++', 'post++', '++pre', '++post'):
+            tgt = q.strip_casts(n['e'])
+        elif n['k'] == 'bin' and n['op'] == '+=' and (q.int_value(n['rhs']) or 0) > 0:
+            tgt = q.strip_casts(n['lhs'])
+        if is_node(tgt) and tgt['k'] == 'ref' and tgt.get('dk') == 'local':
+            out.append((n, tgt['did']))
+    return out
+
+
+def progress_rule(run, rn, outer):
+    """Each timer dequeued in the firing loop is counted as executed work, unconditionally."""
+    fx = run.fx
+    fires = q.flat_calls(rn, lambda g, c: (q.callee_name(c) or '').endswith('high_resolution_timer::fire'))
+    cond_dids = set()
+    for l in outer:
+        for a, p_ in q.conjuncts(l.get('cond'), True):
+            c = q.cmp_atom(a)
+            if c and c[0] == '>' and q.int_value(c[2]) == 0:
+                x = q.strip_casts(c[1])
+                if is_node(x) and x['k'] == 'ref':
+                    cond_dids.add(x.get('did'))
+    for x in fires:
+        own = x.owner
+        ers = [c for op, c in q.container_calls(own, 'm_timer_queue') if op in ('erase', 'pop_front', 'pop_back')]
+        incs = _const_increments(own)
+        counted = {}
+        for site, did in incs:
+            counted.setdefault(did, []).append(site)
+        good = [did for did, sites in counted.items() if ers and all(q.must_follow(own, e, sites) for e in ers)]
+        ok = bool(good)
+        why = 'a timer is removed from the queue and fired without the round being counted as progress by a constant increment: when its wait has no handler the round looks idle and run() returns although later timers are still queued (a second run() then moves the clock)'
+        if ok and own is rn:
+            ok = any(d in cond_dids for d in good)
+            why = 'the counter incremented after each dequeue is not the one the loop condition of run() tests'
+        elif ok:
+            # helper: the counter is what the helper returns, and run() adds the helper's result to its condition variable
+            rets = [r for r in q.returns(own) if r.get('e') is not None]
+            ok = bool(rets) and any(all(q.int_value(r['e']) == 0 or (q.strip_casts(r['e']).get('k') == 'ref' and q.strip_casts(r['e']).get('did') == d) for r in rets) for d in good)
+            why = 'the helper that fires timers does not return the number of timers it dequeued'
+            if ok:
+                adds = [n for n in rn.all_nodes() if n['k'] == 'bin' and n['op'] == '+=' and q.strip_casts(n['lhs']).get('did') in cond_dids]
+                def from_helper(e, depth=0):
+                    e = q.strip_casts(e)
+                    if not is_node(e) or depth > 3:
+                        return False
+                    if e is x.anchor or any(y is x.anchor for y in __import__('simlib').walk(e)):
+                        return True
+                    if e['k'] == 'ref' and e.get('dk') == 'local':
+                        return any(from_helper(d, depth + 1) for _, d in q.local_defs(rn, e['did']))
+                    return False
+                ok = any(from_helper(n['rhs']) for n in adds)
+                why = 'run() does not add the number of timers its helper fired to the variable its loop condition tests'
+        run.check(ok, 'R4', 'dequeue-counts-as-progress', 'sim::simulation::run', own.loc(x.call), why, 'every dequeue is followed by a constant increment of the progress counter tested by the loop condition')
+    if not fires:
+        run.broke('simulation::run no longer reaches high_resolution_timer::fire (anchor vanished)')
 
 
 def nonneg_advance_rule(run):
